@@ -46,13 +46,13 @@ print(json.dumps(c17.compile_many(order)))
 """
 
 
-def compile_one(i):
+def compile_one(i, parser=None):
     from opensquirrel.circuit import Circuit
     from opensquirrel.exporter.export_format import ExportFormat
 
     src, pipeline = POOL[i]
     try:
-        c = Circuit.from_string(src)
+        c = Circuit.from_string(src) if parser is None else parser.circuit_from_string(src)
         for p in pipeline:
             implrun.apply_pass(c, list(p))
     except Exception as e:  # noqa: BLE001
@@ -115,6 +115,30 @@ def run(ctx):
                 ctx.oracle_fail("in_process", case, f"compiling pool entry {i} after {order} gave different output", None)
                 break
     ctx.suite("in_process_interleavings", cases=len(orders))
+    # the same interleavings with ONE Parser object reading every source of the interleaving (a compilation service keeps
+    # its parser); now and then the parser is first handed a program it refuses
+    from opensquirrel.parser.libqasm.parser import Parser
+
+    refused = ["version 3.0\nqubit[2] q\nH q[5]\n", "version 3.0\nqubit[2] q\nnosuchgate q[0]\n", "version 3.0\nqubit q\nbit b\nH q\nH b\n"]
+    n_sh = 0
+    for order in orders:
+        if len(order) < 2 and rng.random() < 0.5:
+            continue
+        parser = Parser()
+        case = {"order": order, "kind": "shared_parser"}
+        if rng.random() < 0.3:
+            case["refused_first"] = rng.choice(refused)
+            try:
+                parser.circuit_from_string(case["refused_first"])
+            except Exception:  # noqa: BLE001
+                pass
+        ctx.seen(case, True)
+        n_sh += 1
+        for i in order:
+            if compile_one(i, parser) != ref[i]:
+                ctx.oracle_fail("shared_parser", case, f"pool entry {i} read by a Parser that had read other programs before gave different output", None)
+                break
+    ctx.suite("shared_parser_interleavings", cases=n_sh)
     fp1, _ = table_fingerprint()
     if fp1 != fp0:
         ctx.oracle_fail("tables", {"check": "tables"}, "default gate definitions / gate sets changed while compiling", None)
@@ -199,6 +223,17 @@ def replay(ctx, payload):
     case = payload.get("case") or {}
     if "order" in case:
         ref = [compile_one(i) for i in range(len(POOL))]
+        if case.get("kind") == "shared_parser":
+            from opensquirrel.parser.libqasm.parser import Parser
+
+            parser = Parser()
+            if case.get("refused_first"):
+                try:
+                    parser.circuit_from_string(case["refused_first"])
+                except Exception:  # noqa: BLE001
+                    pass
+            outs = [compile_one(i, parser) for i in case["order"]]
+            return {"fails": any(o != ref[i] for i, o in zip(case["order"], outs))}
         outs = compile_many(case["order"])
         return {"fails": any(o != ref[i] for i, o in zip(case["order"], outs))}
     return {"fails": payload.get("kind") == "oracle", "case": case}
